@@ -9,6 +9,7 @@ mod flags;
 mod hball;
 mod llp;
 mod pmf;
+mod lab;
 mod probe;
 mod split;
 mod scc;
@@ -74,6 +75,7 @@ fn main() {
         "llp" => llp::run(seed, count, maxn, &mode, &args, &mut out),
         "ess" => ess::run(seed, count, maxn, &mode, &mut out),
         "pmf" => pmf::run(seed, &mode, &mut out),
+        "lab" => lab::run(seed, count, maxn, &mode, &mut out),
         "probe" => probe::run(&mode),
         "cli" => cli::run(seed, count, maxn, &mut out),
         "visit" => visit::run(seed, count, maxn, &mode, &mut out),
